@@ -175,6 +175,9 @@ def check(ctx: Ctx) -> None:
                                           fn.path, n.lineno, operand='natural-order')
     _check_gray2binary(ctx)
     _check_shapes(ctx)
+    from ..idioms import check_input_immutability, public_api
+    fns = public_api(ctx.model, [CONV], include={'gray2binary', 'binary2gray'}) + public_api(ctx.model, [MISC], include={'xor', 'count_bit_errors'})
+    check_input_immutability(ctx, 'C15.d', fns, floor=4)
 
 
 def xor_operands(e: ast.AST) -> Optional[Tuple[ast.AST, ast.AST]]:
